@@ -1076,6 +1076,7 @@ class SQLObject(with_metaclass(declarative.DeclarativeMeta, object)):
             self.sqlmeta.expired = True
             self._connection.cache.expire(self.id, self.__class__)
             self._SO_createValues = {}
+            self.sqlmeta.dirty = False
         finally:
             self._SO_writeLock.release()
 
